@@ -371,6 +371,10 @@ func (ps *Pieces) del(p uint32, force bool) (done bool, complete bool) {
 			}
 		}
 		ps.mu.Lock()
+		if ps.pieces[p].data == nil {
+			// discarded in the meantime (hash mismatch)
+			return
+		}
 	}
 
 	done = true
